@@ -19,6 +19,10 @@ def main(tier, seed):
     # every element of zero-initialised globals and of dynamic arrays is written: an extent that is too small shows as a
     # store outside it (ElemInExtent) or in what the neighbours then hold
     items += [it for it in fam_seq.misc(seed, tier) if it.key[1] in ('global_arrays_sized', 'vla_length_sources', 'zeros_over_used_stack')]
+    # entry arrays with scalar parameters after them, written through their own length and probed one past the end; try/stop
+    # with the defeat raised in callees that hold arrays, followed by fresh allocations (wave 10: both were missed without)
+    items += fam_seq.entry_bounds(seed, tier)
+    items += fam_tt.template_family(seed, tier, only=fam_tt.SCOPE_TEMPLATES)
     gen = families.generated(seed + 4, 25 if quick else 300, feat={'faults': 0.2}, inputs=2, family='gen4')
     items += gen
     # random programs at every stack size from their minimum down to several words below
